@@ -19,7 +19,7 @@ TRUSTED_BASE = [
     "axioms: as printed by Print Assumptions under each theorem of coq/Props/<id>.v (copied below as 'axioms')",
     "extraction: Coq Extraction with ExtrOcamlBasic and ExtrOcamlNativeString (their Extract Inductive/Constant directives for bool, option, unit, list, prod, sumbool, string, ascii); no Extract Constant of our own",
     "driver/main.ml: binary64 NumOps record with Python int/float semantics (libm exp/log), wire syntax, dispatch",
-    "xlate/pyxlate.py: translation of the decision and arithmetic expressions, and of the whole bodies of 21 functions (Deme.size_at, Deme.end_time, Epoch.time_span, to_ms.get_growth_rate, Graph.in_generations, Graph.rename_demes, valid_deme_name (str.isidentifier = the model's ASCII is_identifier: trusted mapping), isclose_deme_proportions, the assert_close of Epoch, AsymmetricMigration, Deme, Pulse and Graph (attrs ordering of Deme / AsymmetricMigration = the model's deme_lt / mig_lt is a trusted table), the post-init checks of Epoch, AsymmetricMigration and Pulse, five validators), of /repo's source into Gallina (coq/Gen, regenerated and proved equal to the model on every run)",
+    "xlate/pyxlate.py: translation of the decision and arithmetic expressions, and of the whole bodies of 23 functions (Deme.size_at, Deme.end_time, Epoch.time_span, to_ms.get_growth_rate, Graph.in_generations, Graph.rename_demes, Graph.successors, Graph.predecessors, valid_deme_name (str.isidentifier = the model's ASCII is_identifier: trusted mapping), isclose_deme_proportions, the assert_close of Epoch, AsymmetricMigration, Deme, Pulse and Graph (attrs ordering of Deme / AsymmetricMigration = the model's deme_lt / mig_lt is a trusted table), the post-init checks of Epoch, AsymmetricMigration and Pulse, five validators), of /repo's source into Gallina (coq/Gen, regenerated and proved equal to the model on every run)",
     "IEEE binary64 comparisons satisfy NumLaws: proved for Coq primitive floats in coq/Base/NumF.v (depends on the standard library's FloatAxioms and the Reals/classical axioms Flocq uses; imported only by the binary64 refutation theorems of coq/Props/C11.v)",
     "standard-library axioms used by the exact-real-arithmetic theorems (coq/Base/NumR.v, Props C13 and C07 *_R theorems): ClassicalDedekindReals.sig_not_dec, sig_forall_dec, FunctionalExtensionality.functional_extensionality_dep, Classical_Prop.classic; by the binary64 theorems (Props C11 *_F): the same plus the primitive float / 63-bit integer types and operations and FloatAxioms' specifications; all other theorems are closed under the global context",
     "harness/*.py: generators, canonicalisation, comparison, classification of findings",
